@@ -49,6 +49,8 @@
 (*                             and then the space the timer was armed for  *)
 (*                             is owed two probes (one if nothing          *)
 (*                             ack-eliciting is in flight)                 *)
+(*   ProbeTimeoutWithoutProbe  between two expiries for the same space an   *)
+(*                             ack-eliciting packet was sent in it         *)
 (*   ProbeCountNotReset        an ACK that newly acknowledges a packet     *)
 (*                             resets it (client: once the server has      *)
 (*                             validated the address); nothing else does   *)
@@ -56,8 +58,8 @@
 EXTENDS Naturals, Integers, Sequences, FiniteSets, TLC, Json, IOUtils
 Rec == ndJsonDeserialize(IOEnv.TRACE)
 N == Len(Rec)
-VARIABLES l, bad, server, pth, cur
-vars == <<l, bad, server, pth, cur>>
+VARIABLES l, bad, server, pth, owed, cur
+vars == <<l, bad, server, pth, owed, cur>>
 e == Rec[l]
 Is(k) == l <= N /\ e.ev = k
 Flag(c, name) == IF c THEN {} ELSE {name}
@@ -66,8 +68,8 @@ Min(a, b) == IF a < b THEN a ELSE b
 Abs(a) == IF a < 0 THEN 0 - a ELSE a
 Near(a, b, tol) == Abs(a - b) <= tol
 
-TInit == l = 1 /\ bad = {} /\ server = FALSE /\ pth = 3 /\ cur = <<0, 0, 0>>
-Reset == /\ Is("Reset") /\ bad' = {} /\ server' = e.server /\ pth' = e.pth
+TInit == l = 1 /\ bad = {} /\ server = FALSE /\ pth = 3 /\ owed = {} /\ cur = <<0, 0, 0>>
+Reset == /\ Is("Reset") /\ bad' = {} /\ server' = e.server /\ pth' = e.pth /\ owed' = {}
          /\ cur' = <<e.run, e.n, e.c>> /\ l' = l + 1
 
 --------------------------------------------------------------------------------
@@ -194,6 +196,13 @@ Step ==
                   /\ (Q.ptoc < P.ptoc => Q.ptoc = 0 /\ e.kind = "Rx" /\ ackSpaces # {} /\ Validated(Q))
                   /\ ((e.kind = "Rx" /\ ackSpaces # {}
                        /\ (Validated(P) \/ \E s \in ackSpaces : s >= 2)) => Q.ptoc = 0), "ProbeCountNotReset")
+        \* ---- a probe timeout is followed by a probe: when the timer expires again for a space,
+        \* an ack-eliciting packet has been sent in it since the last expiry (unless the
+        \* anti-amplification limit stood in the way, the space was dropped or the path changed)
+        \cup Flag(~(ptoDue /\ Q.st < 2 /\ samePath /\ P.ptoc <= 8) \/ ptoSp \notin owed, "ProbeTimeoutWithoutProbe")
+     /\ owed' = IF Q.st >= 2 \/ ~samePath \/ AmpBlocked(P) \/ AmpBlocked(Q) THEN {}
+                ELSE LET kept == {s \in owed : ~e.sentae[s] /\ s \notin disc /\ Q.keys[s]} IN
+                     IF ptoDue /\ P.ptoc <= 8 /\ ptoSp \in 1 .. 3 /\ ~e.sentae[ptoSp] THEN kept \cup {ptoSp} ELSE kept
      /\ (bad' # bad => PrintT(<<"AT", l, e.kind, e.t, bad' \ bad, "want", want, "rEnd", rEnd, "dMin", dMin, "dMax", dMax>>))
   /\ l' = l + 1 /\ UNCHANGED <<server, pth, cur>>
 
